@@ -77,7 +77,7 @@ def run_mc(rep: Report, cfg: str, coverage: bool) -> list[dict]:
     # vacuity: every operation, in-time and late schedules, every call kind explored
     if not res.violated:
         ops = {s["op"] for s in scens}
-        if ops != {"colors", "namever", "cellsize", "kitty", "iterm2", "auto"}:
+        if ops != {"colors", "namever", "cellsize", "kitty", "iterm2", "auto", "history"}:
             raise tlc.MachineryError(f"MC_Tty explored only {sorted(ops)}")
         if not any(not s["intime"] for s in scens) or not any(s["intime"] and s["exp"]["elapsed"] > 0 for s in scens):
             raise tlc.MachineryError("MC_Tty: no late / no delayed in-time schedule explored (vacuous)")
@@ -100,12 +100,12 @@ def replay_scn(rep: Report, scn: dict, origin: str):
     rep.evaluations += 1
     f = run["final"]
     if "traceback" in f:
-        rep.violation(f"{scn['op']}:raises:{f['kind']}",
-                      f"{scn['op']} raised {f['kind']} on the virtual tty\n{f['traceback']}",
+        rep.violation(f"{K.label(scn)}:raises:{f['kind']}",
+                      f"{K.label(scn)} raised {f['kind']} on the virtual tty\n{f['traceback']}",
                       {"kind": "vtty", "scn": scn})
         return run, False
     if f["status"] == "hung":
-        rep.violation(hang_signature(scn["op"], f["kind"]),
+        rep.violation(hang_signature(K.label(scn), f["kind"]),
                       f"{origin}, virtual tty, query timeout {scn['tmo']} ticks: {f['hang']}; "
                       f"{len(run['events'])} system calls so far, last {[e['call'] for e in run['events'][-6:]]}; "
                       f"supported {scn['term']['sup']}; schedule {json.dumps(scn['sched'])[:300]}",
@@ -116,7 +116,7 @@ def replay_scn(rep: Report, scn: dict, origin: str):
         if diffs:
             d = diffs[0]
             rep.violation(
-                f"{scn['op']}:replay:{d}",
+                f"{K.label(scn)}:replay:{d}",
                 f"{origin}: real code differs from Tty.tla in {diffs}: "
                 + "; ".join(f"{k}: spec {scn['exp'].get(k)!r} real {f.get(k)!r}" for k in diffs if k != "nsys")
                 + f"; calls spec {scn['exp']['nsys']} real {len(run['events'])}; schedule {json.dumps(scn['sched'])[:400]}",
@@ -153,7 +153,7 @@ def judge(rep: Report, traces: list[dict], owners: list[dict]) -> None:
             continue
         if v["verdict"] == "ok":
             continue
-        op = t["op"]["name"]
+        op = t["op"]["name"] if t["op"]["name"] != "history" else t["op"]["more"] + "@disable-enable"
         if v["verdict"].startswith("env:"):
             raise tlc.MachineryError(
                 f"the {t['mode']} tty device disagrees with Tty.tla's environment: {v} on {o.get('origin')} {op}")
@@ -211,7 +211,14 @@ def grid_scenarios(rng: random.Random, tier: str) -> list[dict]:
                     w = dict(cols=cols, rows=rows, **win)
                     out.append(K.scenario("cellsize", t, rng=rng, swap=swap, win=w,
                                           ioctl_fails=rng.random() < 0.15, enabled=rng.random() > 0.1))
-    return out
+    # histories disable -> op -> enable -> op (a sixth of the colour/name cases, every cell-size case again)
+    more = []
+    for scn in out:
+        if scn["enabled"] and (scn["op"] == "cellsize" or (scn["op"] in ("colors", "namever") and rng.random() < 0.15)):
+            h = copy.deepcopy(scn)
+            h.update(op="history", inner=scn["op"])
+            more.append(h)
+    return out + more
 
 
 def pty_scenarios(rng: random.Random, tier: str) -> list[tuple[dict, list]]:
@@ -232,8 +239,10 @@ def pty_scenarios(rng: random.Random, tier: str) -> list[tuple[dict, list]]:
                  cell=[rng.randrange(1, 40), rng.randrange(1, 20)], area=[rng.randrange(0, 2000), rng.randrange(0, 3000)])
         cols, rows = rng.choice([(80, 24), (120, 40)])
         win = rng.choice([{"xpx": 0, "ypx": 0}, {"xpx": 0, "ypx": 0}, {"xpx": cols * 9, "ypx": rows * 18}, {"xpx": 7, "ypx": 500}])
-        scn = K.scenario(op, t, tmo=T62MS if silent else T5S, swap=rng.random() < 0.3, win=dict(cols=cols, rows=rows, **win))
-        scn["opx"] = {"name": op}
+        hist = op in ("colors", "namever", "cellsize") and rng.random() < 0.25
+        scn = K.scenario(op, t, tmo=T62MS if silent else T5S, swap=rng.random() < 0.3, win=dict(cols=cols, rows=rows, **win),
+                         history=hist)
+        scn["opx"] = {"name": scn["op"], "more": scn["inner"]}
         bursts = []
         for qs in K.writes_of(op, t, True, bool(win["xpx"] and win["ypx"])):
             sch = K.random_sched(rng, K.replies(t, qs), 4)
@@ -244,26 +253,26 @@ def pty_scenarios(rng: random.Random, tier: str) -> list[tuple[dict, list]]:
 
 def run_pty(rep: Report, session: termsim.PtySession, scn: dict, bursts: list) -> dict | None:
     good = bool(scn["win"]["xpx"] and scn["win"]["ypx"])
-    reqs = [K.request_bytes(qs) for qs in K.writes_of(scn["op"], scn["term"], scn["enabled"], good)]
+    reqs = [K.request_bytes(qs) for qs in K.writes_of(K.eff_op(scn), scn["term"], scn["enabled"], good)]
     replay = {"kind": "pty", "scn": scn, "bursts": [[(d, list(x)) for d, x in b] for b in bursts]}
     try:
         # a silence is retried once (this process may have stalled) unless the deterministic
         # virtual runs have already shown that the code does not fall back
         res = session.run(scn, requests=reqs, bursts=bursts, slack=SLACK, retry_silence=not no_fallback_seen(rep))
     except termsim.NoReturn as e:
-        rep.violation(hang_signature(scn["op"], "StillWaiting"),
+        rep.violation(hang_signature(K.label(scn), "StillWaiting"),
                       f"real pty, query timeout {scn['tmo'] / vtty.TICK_HZ:g} s: the call did not return within 15 s "
                       f"({e}); the worker was killed; supported {scn['term']['sup']}", replay)
         return None
     rep.evaluations += 1
     if res["final"]["status"] == "hung":
-        rep.violation(hang_signature(scn["op"], res["final"]["kind"]),
+        rep.violation(hang_signature(K.label(scn), res["final"]["kind"]),
                       f"real pty, query timeout {scn['tmo'] / vtty.TICK_HZ:g} s: {res['final']['hang']} after "
                       f"{res['final']['elapsed'] / vtty.TICK_HZ:.2f} s and {len(res['events'])} system calls, last "
                       f"{[e['call'] for e in res['events'][-6:]]}; supported {scn['term']['sup']}", replay)
         return None
     if "traceback" in res["final"]:
-        rep.violation(f"{scn['op']}:raises:{res['final']['kind']}", res["final"]["traceback"],
+        rep.violation(f"{K.label(scn)}:raises:{res['final']['kind']}", res["final"]["traceback"],
                       {"kind": "pty", "scn": scn, "bursts": [[(d, list(x)) for d, x in b] for b in bursts]})
         return None
     return res
@@ -326,10 +335,10 @@ def main(rep: Report, replay: dict | None) -> None:
     t0 = time.time()
     runs = []
     for scn in scens:
-        scn["opx"] = {"name": scn["op"]}
+        scn["opx"] = {"name": scn["op"], "more": scn["inner"]}
         run, ok = replay_scn(rep, scn, "MC_Tty behaviour")
         if run["events"]:
-            rep.distinct.add(("mc", scn["op"], json.dumps(scn["sched"]), json.dumps(scn["term"], sort_keys=True),
+            rep.distinct.add(("mc", K.label(scn), json.dumps(scn["sched"]), json.dumps(scn["term"], sort_keys=True),
                               json.dumps(scn["win"]), scn["swap"]))
         if ok:
             runs.append((scn, run))
@@ -360,7 +369,7 @@ def main(rep: Report, replay: dict | None) -> None:
         if not ok:
             continue
         f = run["final"]
-        rep.distinct.add(("grid", scn["op"], json.dumps(scn["term"], sort_keys=True), json.dumps(scn["win"]), scn["swap"]))
+        rep.distinct.add(("grid", K.label(scn), json.dumps(scn["term"], sort_keys=True), json.dumps(scn["win"]), scn["swap"]))
         if i % (80 if quick else 10) == 0:
             traces.append(K.make_trace("virtual", scn, run, c12=True))
         else:
@@ -391,7 +400,7 @@ def main(rep: Report, replay: dict | None) -> None:
             traces.append(K.make_trace("real", scn, res, c12=True, stream=res["sent"]))
             owners.append({"kind": "pty", "scn": scn, "origin": "pty",
                            "bursts": [[(d, list(x)) for d, x in bb] for bb in bursts]})
-            rep.distinct.add(("pty", scn["op"], json.dumps(scn["term"], sort_keys=True), json.dumps(scn["win"])))
+            rep.distinct.add(("pty", K.label(scn), json.dumps(scn["term"], sort_keys=True), json.dumps(scn["win"])))
     finally:
         rep.extra["pty_stalls_retried"] = getattr(session, "stalls", 0)
         session.close()
